@@ -112,11 +112,13 @@ def run(chk, S: Session):
                     okm = len(means) == 1 and means[0].kwargs.get("axis", None) == 0
                     prod = means[0].args[0] if okm else None
                     okp = False
-                    if prod is not None and prod.op in ("mul", "np.einsum", "linalg.einsum"):
-                        ops_ = prod.args if prod.op == "mul" else prod.args[1:]
+                    if prod is not None and prod.op in ("mul", "matmul", "np.einsum", "linalg.einsum"):
+                        ops_ = prod.args if prod.op in ("mul", "matmul") else prod.args[1:]
 
                         def root(t):
-                            while isinstance(t, T.Term) and t.op == "getitem":
+                            # the operand itself, seen through indexing and axis permutations (a batched `v @ transpose(w)` is the same contraction as
+                            # the einsum; the layout of the result is R-C17-1's business)
+                            while isinstance(t, T.Term) and (t.op == "getitem" or (t.op == "np.transpose" and t.args) or (t.op == "attr" and t.args[1] in ("T", "mT"))):
                                 t = t.args[0]
                             return t
 
